@@ -153,16 +153,28 @@ class AddressMixin:
         if self.sheet and other.sheet and self.sheet != other.sheet:
             return VALUE_ERROR
 
-        min_col_idx = min_(self.col_idx, other.col_idx)
-        min_row = min_(self.row, other.row)
+        # an unbounded direction (row or column of 0) starts at 1
+        min_col_idx = min_(self.col_idx or 1, other.col_idx or 1)
+        min_row = min_(self.row or 1, other.row or 1)
 
-        max_col_idx = max_(self.col_idx + self.size.width,
-                           other.col_idx + other.size.width) - 1
-        max_row = max_(self.row + self.size.height,
-                       other.row + other.size.height) - 1
+        max_col_idx = max_((self.col_idx or 1) + self.size.width,
+                           (other.col_idx or 1) + other.size.width) - 1
+        max_row = max_((self.row or 1) + self.size.height,
+                       (other.row or 1) + other.size.height) - 1
 
         if max_col_idx < min_col_idx or max_row < min_row:
             return NULL_ERROR
+
+        # ... and a result which is still unbounded is returned as such
+        sheet = self.sheet or other.sheet
+        all_rows = (min_row, max_row) == (1, MAX_ROW)
+        all_cols = (min_col_idx, max_col_idx) == (1, MAX_COL)
+        if all_rows and not all_cols and 0 in (self.row, other.row):
+            return AddressRange('{}:{}'.format(
+                get_column_letter(min_col_idx),
+                get_column_letter(max_col_idx)), sheet=sheet)
+        if all_cols and not all_rows and 0 in (self.col_idx, other.col_idx):
+            return AddressRange(f'{min_row}:{max_row}', sheet=sheet)
 
         elif max_col_idx == min_col_idx and max_row == min_row:
             return AddressCell((min_col_idx, min_row, max_col_idx, max_row),
